@@ -31,7 +31,7 @@ import (
 // Close as requested.
 
 func init() {
-	evid.Tests(evid.Spec{Name: "TestPropHugeChunks", Kind: "rapid", Quick: 320, Thorough: 6000, QuickShards: 8, ThoroughShards: 16})
+	evid.Tests(evid.Spec{Name: "TestPropHugeChunks", Kind: "rapid", Quick: 320, Thorough: 5000, QuickShards: 8, ThoroughShards: 16})
 }
 
 const (
